@@ -263,7 +263,8 @@ def disassemble(isa, cfg, items, ctx):
 COND_ALIAS = {"hs": "cs", "lo": "cc"}
 
 REG_ALIAS = {
-    "arm": {"r13": "sp", "r14": "lr", "r15": "pc", "r11": "r11", "fp": "r11", "r12": "r12", "ip": "r12"},
+    "arm": {"r13": "sp", "r14": "lr", "r15": "pc", "r11": "r11", "fp": "r11", "r12": "r12", "ip": "r12",
+            "apsr_nzcv": "pc"},      # mrc with Rt = 15 transfers to the flags
     "thumb": {"r13": "sp", "r14": "lr", "r15": "pc"},
     "avr": {"x": "r26", "y": "r28", "z": "r30", "w": "r24"},
     "msp430": {"pc": "r0", "sp": "r1", "sr": "r2", "cg": "r3"},
@@ -414,7 +415,7 @@ def compare(isa, ptext, ltext, has_label, vocab=frozenset()):
             return "unknown_immediate_alignment", f"{a} vs {b}"     # low bits of a scaled offset dropped: C10's subject
         if a != 0 and b != 0 and (a % b == 0 or b % a == 0):
             return "unknown_immediate_scaled", f"{a} vs {b}"
-        if (a - b) % 16 == 0 or (a - b) % 256 == 0:
+        if (a - b) % 8 == 0:
             return "unknown_immediate_wrapped", f"{a} vs {b}"     # truncation / sign view: C10's subject
         return "mismatch_immediate", f"{a} vs {b}"
     return "unknown_other", ""
